@@ -59,3 +59,35 @@ Example C02b_monitor_rejects :
 Proof. vm_compute. repeat split. Qed.
 
 Print Assumptions C02_forged_response_changes_no_protocol_state.
+
+(* ---- the property as a statement about two runs (Proofs/C02Rel.v) ----
+   With a CUP handler, take any script and change, in any of the responses that fail authentication, what the response
+   says - its status, its X-Retry-After header, its body (an update offer, a cohort, a day number, garbage, nothing): the
+   two runs of the machine are the same action for action - same requests with the same bytes, same events, policy
+   questions and the state shown in them, installer calls, storage operations, metrics, timers, replies - and differ only
+   in the outcome each request records as received.  So nothing in an unauthenticated response is acted upon, stored,
+   announced or sent: it is interchangeable with any other unauthenticated response.  (`oeq`: equal, or both failing
+   authentication; `aeq`: equal, or the same request with interchangeable outcomes.) *)
+Require Import Verif.Proofs.C02Rel.
+Theorem C02_what_an_unauthenticated_response_says_changes_nothing :
+  forall ep cfg url kid apps e responses responses',
+    Forall2 oeq responses responses' ->
+    Forall2 aeq (run_case ep cfg url (Some kid) apps (seth e responses))
+                (run_case ep cfg url (Some kid) apps (seth e responses')).
+Proof. exact unauthenticated_content_is_inert. Qed.
+Print Assumptions C02_what_an_unauthenticated_response_says_changes_nothing.
+(* the relation is not trivial: a forged update offer with a poll interval is interchangeable with a forged error page, a
+   genuine response is interchangeable with nothing but itself, and two different events are never related *)
+Example C02_interchangeable_outcomes :
+  let d := {| d_daystart := Some (Some 5000%N); d_apps := [] |} in
+  oeq (HResp 200%N (Some (s2b "3600")) false (BDoc d)) (HResp 503%N None false BBad)
+  /\ ~ oeq (HResp 200%N None true (BDoc d)) (HResp 200%N None true BBad)
+  /\ ~ oeq (HResp 200%N None true BBad) (HResp 200%N None false BBad)
+  /\ ~ aeq (AEvent (EvState Idle)) (AEvent (EvState NoUpdateAvailable)).
+Proof.
+  cbv zeta. repeat split.
+  - right. repeat eexists.
+  - intros [H|(s1 & r1 & b1 & s2 & r2 & b2 & H1 & H2)]; discriminate.
+  - intros [H|(s1 & r1 & b1 & s2 & r2 & b2 & H1 & H2)]; discriminate.
+  - intros [H|(w & o1 & o2 & H1 & H2 & _)]; discriminate.
+Qed.
